@@ -109,7 +109,8 @@ def plan(tier, seed):
         specs.append({'mode': 'xfer', 'seed': b + 200 + i,
                       'scenarios': 2 if q else 4, 'scale': 0.5 if q else 1.0,
                       'flavour': ['spawn', 'forkserver'][i % 2]})
-    for i in range(3 if q else 6):
+    for i in range(6 if q else 12):
+        # every statement of put/get/task_done/join is visited twice (6 when thorough)
         specs.append({'mode': 'lines', 'seed': b + 250 + i, 'part': i % 3, 'parts': 3})
     for i in range(4 if q else 10):
         specs.append({'mode': 'join', 'seed': b + 300 + i,
@@ -320,7 +321,7 @@ def install_injection(seed, who, mode='random', target=None, prob=0.2, maxsleep=
          'slow_put': at *every* line of Queue.put / JoinableQueue.put
          'slow_get': at every line of Queue.get
          'slow_td' : at every line of task_done / join
-         'line'    : 2-4 ms before one chosen line (target = [class, method,
+         'line'    : 3-6 ms before one chosen line (target = [class, method,
                      index of the line]) and nowhere else
     """
     if _INJ['on']:
@@ -356,7 +357,7 @@ def install_injection(seed, who, mode='random', target=None, prob=0.2, maxsleep=
                 tl.busy = True
                 try:
                     _INJ['n'] += 1
-                    slp(0.002 + rnd() * 0.002)
+                    slp(0.003 + rnd() * 0.003)
                 finally:
                     tl.busy = False
                 return
